@@ -11,6 +11,8 @@ import (
 
 func init() { props["C07"] = c07 }
 
+func sqlDefaultCtx() *sql.Ctx { return sql.DefaultCtx() }
+
 // implLogSQL: real parser → real planner → Process → String
 func implLogSQL(query string, c qctx) (string, *logql_parser.LogQLScript, error) {
 	script, err := logql_parser.Parse(query)
@@ -80,9 +82,13 @@ func c07(r *h.Result, rng *h.Rng, tier string, replay string) error {
 	if tier != "quick" {
 		n = 10000
 	}
-	r.Rule = "text: grammar-directed log queries (1–4 matchers, 0–4 stages: line filters |= != |~ !~, label filters with and/or/parentheses, string and numeric comparisons; hostile strings) × random planner contexts (windows, limits 0/1/100/5000, direction, type, cluster); non-trivial = more than one matcher or at least one stage; distinct by (query, context)"
+	r.Rule = "text: grammar-directed log queries (1–4 matchers, 0–4 stages: line filters |= != |~ !~, label filters with and/or/parentheses, string and numeric comparisons; hostile strings) × random planner contexts (windows, limits 0/1/100/5000, direction, type, cluster); non-trivial = more than one matcher or at least one stage; distinct by (query, context). sem: queries of ≤3 matchers/≤3 stages × contexts × databases of 1–6 streams (labels drawn from the query's vocabulary, index rows on day−1/day/day+1 with gaps, ≤8 samples per stream at the window edges, mixed types); non-trivial = the expected result is non-empty"
 	if err := c07Text(r, rng.Fork(), n); err != nil {
 		return err
 	}
-	return nil
+	m := 300
+	if tier != "quick" {
+		m = 5000
+	}
+	return c07Sem(r, rng.Fork(), m)
 }
